@@ -14,9 +14,10 @@ the cell's borrow word, decided on the value that operation itself returns
 totally ordered, so whatever any number of threads do to a cell is *a sequence* of these steps;
 `any_interleaving` (below) shows that every sequence answers exactly what the abstract borrow
 state of `Model/World.lean` answers and leaves a word that stands for that state. The theorems
-of this file about all legal histories therefore cover all interleavings. Assumed, not proved:
-that the transcription is faithful (a dependency outside the crate; tied only by the
-many-thread stress rounds of the world engine), single-location coherence of atomics, and that
+of this file about all legal histories therefore cover all interleavings. The transcription is
+compared with the real cell — answer *and raw borrow word* after every step of random
+sequential histories (engine `cellword`). Assumed, not proved:
+single-location coherence of atomics, and that
 the two overflow paths of `check_overflow` (2^63 live shared guards, 2^62 refused attempts
 during one exclusive borrow) are not reached.
 -/
